@@ -18,6 +18,13 @@ CHECKS = {
         note="Trusted: CPython ast, clang-14 JSON AST, sympy as normaliser, the translators in engine/symalg.py, interval semantics in engine/absint.py (rounding ignored except overflow/underflow/absorption thresholds).",
         ref="DESIGN.md §3 C10",
     ),
+    "C20": dict(
+        technique="static analysis: source-to-sympy translation of the three equations of state and symbolic differentiation (12 defining-meaning obligations); open-term normal-form comparison of the QHA finite-difference, unit and PV formulas with the documented ones; dispatch/unpack-order table rules",
+        level="proof",
+        text="Every obligation is an algebraic identity about the source expression as written (E(V0)=E0, E'(V0)=0, V0E''(V0)=B0, dB/dP=B0'; +PV term; row-i-to-temperature-i; documented finite differences), discharged by sympy normalisation — valid for all parameter values, which no test can sample. Does not decide that scipy's least-squares fit recovers the parameters.",
+        note="Trusted: CPython ast, sympy 1.14 diff/simplify as normaliser, translators in engine/symalg.py. Assumes v, V0, B0, B0' > 0; Murnaghan's removable singularity at B0'=1 not claimed.",
+        ref="DESIGN.md §3 C20",
+    ),
 }
 
 NOT_APPLICABLE = {
